@@ -4,7 +4,7 @@
    bview v = the bytes of the slice within its length; swf v = len <= cap;
    is_bytes v r e: the getter returned a value (copied array, range inside the view, or nil) denoting bytes e. *)
 From PV Require Import Base.Prelude Base.Slice Model.ViewsBase Model.Views Model.Views2 Model.ViewsVar.
-From PV Require Import Model.FastlogViews Proofs.FastlogGlue.
+From PV Require Import Model.ViewsDispatch Model.FastlogViews Proofs.FastlogGlue.
 Open Scope N_scope.
 
 Theorem C20_glue_valid_Ether : forall v, swf v -> Ether_IsValid v = Ok (view_valid KEther (bview v)).
@@ -241,3 +241,8 @@ Theorem C20_glue_lldp_ops_step : forall f q pos,
         ++ lldp_ops f q (pos + N.to_nat (tlv_l x) + 2))%list.
 Proof. exact lldp_ops_step. Qed.
 Print Assumptions C20_glue_lldp_ops_step.
+
+(* LLDP.Capability: the text the C20 walk prints is VIEWS' LLDP_Capability_s (names of the bits 0x01..0x80, cap_names_code) *)
+Theorem C20_glue_LLDP_Capability : forall v, bytes_ok v -> s2b (ViewsDispatch.LLDP_Capability_s v) = lldp_capability v.
+Proof. exact glue_LLDP_Capability. Qed.
+Print Assumptions C20_glue_LLDP_Capability.
